@@ -28,6 +28,8 @@ def potential_cases(strength):
         ("tet", ("DP", 0, {"segments": [1], "swapped_normals": [1]}), "scalar", None, pts),
         ("strip3", ("P", 1, {"segments": [1], "include_boundary_dofs": True}), "scalar", None, pts[:3]),
         ("fan4", ("DP", 1, {}), "scalar", 0.75 + 0.5j, pts[:2]),
+        # non-prefix support, non-uniform areas, multipliers 0/1 (only the two vertices interior to the support carry dofs)
+        ("octa", ("P", 1, {"support_elements": [1, 2, 3, 5, 6, 7]}), "scalar", None, pts[:2]),
     ]
     if strength == "thorough":
         cases += [
